@@ -226,3 +226,35 @@ UNITS.append(Unit("CanCustomize.with_map[thread pool]", "wrap.CanCustomize.with_
                   cfg=_cfg_with, self_cls="CustomizableThreadPoolExecutor"))
 UNITS.append(Unit("CanCustomize.with_retry[name given]", "wrap.CanCustomize.with_retry", ["C19"], _setup_with_named("with_retry"), _post_with_named,
                   cfg=_cfg_with, self_cls="MapExecutor"))
+
+REPLAYS = [("C19", "", "replay/c19_bind_defects.py"), ("C01", "BoundCallable", "replay/c19_bind_defects.py"), ("C01", "CanCustomize", "replay/c19_bind_defects.py")]
+
+
+# ---- executor.bind(fn) / executor.flat_bind(fn): the methods are the Executors class methods with `self` as the executor ---------
+def _cfg_canbind():
+    cfg = _cfg()
+    cfg.contracts["more_executors._impl.executors.Executors.bind"] = RecordCall(ret_fn=lambda e, s: Z(fresh("bound", Val), "any"))
+    cfg.contracts["more_executors._impl.executors.Executors.flat_bind"] = RecordCall(ret_fn=lambda e, s: Z(fresh("flat_bound", Val), "any"))
+    return cfg
+
+
+def _setup_canbind(engine, st):
+    ex = sym_inst(engine, st, "MapExecutor", "executor")
+    fn = sym_val(engine, st, "any", "fn")
+    return [ex, fn], {}, {"ex": ex, "fn": fn}
+
+
+def _post_canbind(which):
+    def post(engine, st, ctx, out):
+        calls = [e for e in st.trace if e.kind == "repo-call" and e.meth.endswith("Executors." + which)]
+        ok = len(calls) == 1 and not isinstance(out, Raise)
+        a = calls[0].args if ok else []
+        a = a[1:] if ok and len(a) == 3 else a           # (cls, executor, fn) when the class object is passed explicitly
+        return [("executor.%s(fn) = Executors.%s(executor, fn): this executor, this callable, the result handed back" % (which, which), "PC",
+                 z3.And(z3.BoolVal(ok and len(a) == 2), a[0] == ctx["ex"].t if len(a) == 2 else False, a[1] == ctx["fn"].t if len(a) == 2 else False,
+                        engine.to_val(st, out) == calls[0].ret if ok else False), ["C19"])]
+    return post
+
+
+UNITS += [Unit("CanBind.bind", "wrap.CanBind.bind", ["C19"], _setup_canbind, _post_canbind("bind"), cfg=_cfg_canbind, self_cls="MapExecutor"),
+          Unit("CanBind.flat_bind", "wrap.CanBind.flat_bind", ["C19"], _setup_canbind, _post_canbind("flat_bind"), cfg=_cfg_canbind, self_cls="MapExecutor")]
